@@ -76,8 +76,7 @@ def c04a_witness : List Stmt :=
 
 /-- with the `&'a mut Bump` implementor in the table the witness type-checks and is a use after `reset` -/
 theorem c04a_typechecks_and_faults :
-    (check Gen.Sigs.table ⟨true, true⟩ SEnv.empty c04a_witness).isOk = true ∧
-    run ⟨true, true⟩ DState.empty c04a_witness = .error (0, .uaf) := by
+    verdict Gen.Sigs.table ⟨true, true⟩ c04a_witness = none ∧ faultOf ⟨true, true⟩ c04a_witness = some (0, .uaf) := by
   constructor <;> decide
 
 /-- … so the full claim fails for the table as extracted (the negation is proved, the witness is replayed on
@@ -85,14 +84,15 @@ theorem c04a_typechecks_and_faults :
 theorem sound_target_fails : ¬ sound_target := by
   intro h
   have h1 := c04a_typechecks_and_faults
+  unfold verdict faultOf at h1
   cases hc : check Gen.Sigs.table ⟨true, true⟩ SEnv.empty c04a_witness with
-  | error e => rw [hc] at h1; simp [Except.isOk, Except.toBool] at h1
+  | error e => rw [hc] at h1; cases h1.1
   | ok Γ' =>
     rcases h ⟨true, true⟩ c04a_witness Γ' hc with ⟨σ', hr⟩
-    rw [h1.2] at hr; cases hr
+    rw [hr] at h1; cases h1.2
 
 /-- without that implementor the same program is rejected -/
-example : (check table ⟨true, true⟩ SEnv.empty c04a_witness).isOk = false := by decide
+example : verdict table ⟨true, true⟩ c04a_witness = some (2, .notApplicable) := by decide
 
 /-- **Settings conversions.**  For the extracted const assertions and ALL settings (any minimum alignment): a
     conversion that compiles does not weaken a guarantee (`required`: direction kept; minimum alignment not lowered
@@ -109,23 +109,23 @@ theorem conversions_do_not_weaken (owner name : String) (old new : Settings)
 /-! ### non-vacuity: programs the checker accepts / rejects with the extracted table -/
 
 /-- `let x = b.scoped(|s| { let y = s.alloc(..); touch(&y); drop(y); }); drop(b)` is accepted … -/
-example : (check table ⟨true, true⟩ SEnv.empty
+example : verdict table ⟨true, true⟩
     [.newBump 0, .enter 1 2 0 .enterScoped "Bump" "scoped", .call 3 1 .alloc "BumpScope" "alloc", .use 3, .drop 3,
-     .exit none, .drop 0]).isOk = true := by decide
+     .exit none, .drop 0] = none := by decide
 
 /-- … returning `y` from the closure is rejected … -/
-example : check table ⟨true, true⟩ SEnv.empty
+example : verdict table ⟨true, true⟩
     [.newBump 0, .enter 1 2 0 .enterScoped "Bump" "scoped", .call 3 1 .alloc "BumpScope" "alloc", .exit (some 3)]
-    = .error (0, .escape) := by decide
+    = some (0, .escape) := by decide
 
 /-- … holding a value across the drop of its guard is rejected … -/
-example : check table ⟨true, true⟩ SEnv.empty
+example : verdict table ⟨true, true⟩
     [.newBump 0, .call 1 0 .mkGuard "Bump" "scope_guard", .call 2 1 .guardScope "BumpScopeGuard" "scope",
-     .call 3 2 .alloc "BumpScope" "alloc_str", .drop 1, .use 3] = .error (0, .dead) := by decide
+     .call 3 2 .alloc "BumpScope" "alloc_str", .drop 1, .use 3] = some (0, .dead) := by decide
 
 /-- … moving a `Bump` to another thread needs `A: Send` … -/
-example : check table ⟨false, false⟩ SEnv.empty [.newBump 0, .send 0] = .error (0, .notSend) := by decide
-example : (check table ⟨true, false⟩ SEnv.empty [.newBump 0, .send 0]).isOk = true := by decide
+example : verdict table ⟨false, false⟩ [.newBump 0, .send 0] = some (0, .notSend) := by decide
+example : verdict table ⟨true, false⟩ [.newBump 0, .send 0] = none := by decide
 
 /-- … lowering the minimum alignment on a shared borrow is rejected by the const assertions, raising it on an
     exclusive borrow is accepted -/
